@@ -25,11 +25,11 @@ PLAN = {
     # (builder, alphabet, undedup depth, bfs depth)
     'quick': [('noiter', 'plain', 2, 3), ('iter', 'plain-small', 2, 3), ('iter-one', 'plain-small', 2, 2),
               ('iter-lowlhv', 'iter-lhv', 2, 2), ('weather', 'weather-small', 3, 0), ('noiter', 'plain-small', 3, 0),
-              ('noiter', 'two-models', 3, 0)],
+              ('noiter', 'two-models', 3, 0), ('iter-lowlhv-one', 'iter-lhv', 1, 0), ('iter-lowlhv-two', 'iter-lhv', 2, 0)],
     'thorough': [('noiter', 'plain', 3, 6), ('iter', 'plain', 3, 5), ('iter-tight', 'plain-small', 3, 4), ('iter-one', 'plain', 2, 4),
                  ('iter-lowlhv', 'iter-lhv', 3, 4), ('iter-lowlhv-tight', 'iter-lhv', 2, 3), ('weather', 'weather', 3, 4),
                  ('weather-iter', 'weather-small', 2, 0), ('noiter', 'plain-small', 4, 0), ('noiter', 'two-models', 4, 0),
-                 ('iter', 'two-models', 3, 0)],
+                 ('iter', 'two-models', 3, 0), ('iter-lowlhv-one', 'iter-lhv', 2, 0), ('iter-lowlhv-two', 'iter-lhv', 3, 0)],
 }
 
 
